@@ -2176,8 +2176,9 @@ CaseX86PushPop_Gp:
                             o1.as<Mem>().base_and_index_types()))
           goto InvalidInstruction;
 
-        rm_rel = &o1;
-        if (ASMJIT_UNLIKELY(o0.as<Mem>().has_offset()))
+        // The operand that can take a segment override (DS:[zsi]) is the second one of MOVS, but the first one of CMPS.
+        rm_rel = inst_id == Inst::kIdCmps ? &o0 : &o1;
+        if (ASMJIT_UNLIKELY(o0.as<Mem>().has_offset() || o1.as<Mem>().has_offset()))
           goto InvalidInstruction;
 
         uint32_t size = o1.x86_rm_size();
